@@ -716,16 +716,12 @@ func (s *BaseNodeService) processMessage(message storage.Message) (*types.Operat
 				}
 			}
 			//if we have an error during signing procedure, start a new signing procedure
-			_, fsmDump, err := fsmInstance.Do(sif.EventSigningRestart, requests.DefaultRequest{
+			//(saved together with the result of the message itself, a rejected message changes nothing)
+			_, _, err := fsmInstance.Do(sif.EventSigningRestart, requests.DefaultRequest{
 				CreatedAt: time.Now(),
 			})
 			if err != nil {
 				return nil, fmt.Errorf("failed to Do operation in FSM: %w", err)
-			}
-
-			if err := s.fsmService.SaveFSM(message.DkgRoundID, fsmDump); err != nil {
-				return nil, fmt.Errorf("failed to SaveFSM: %w", err)
-
 			}
 		}
 	}
@@ -744,15 +740,12 @@ func (s *BaseNodeService) processMessage(message storage.Message) (*types.Operat
 				fsmInstance.FSMDump().Payload.SigningProposalPayload.BatchID)
 
 			//if we have an error during signing procedure, start a new signing procedure
-			_, fsmDump, err := fsmInstance.Do(sif.EventSigningRestart, requests.DefaultRequest{
+			//(saved together with the result of the message itself, a rejected message changes nothing)
+			_, _, err := fsmInstance.Do(sif.EventSigningRestart, requests.DefaultRequest{
 				CreatedAt: time.Now(),
 			})
 			if err != nil {
 				return nil, fmt.Errorf("failed to Do operation in FSM: %w", err)
-			}
-
-			if err := s.fsmService.SaveFSM(message.DkgRoundID, fsmDump); err != nil {
-				return nil, fmt.Errorf("failed to SaveFSM: %w", err)
 			}
 		}
 	}
